@@ -262,6 +262,18 @@ def c17_correspond(run, rng, tier):
             elif k < 0.5: s.append(('f',))
             else: s.append(('r', rng.choice([1, 1, 2, 3, 4, 8, 64])))
         seqs.append(s)
+    # sizes: messages around and far beyond any plausible internal buffer size (powers of two and their neighbours), read with
+    # buffers smaller than, equal to and larger than the message; nothing in the property depends on a size
+    sizes = [255, 256, 257, 1023, 1024, 1025, 4095, 4096, 4097, 8191, 8192, 8193, 20000] + ([65535, 65536, 65537, 300000] if tier != 'quick' else [])
+    for m in sizes:
+        for rb in (1, 7, 100, 4096, m - 1, m, m + 1):
+            body = [(counter[0] + i) % 256 for i in range(m)]
+            counter[0] += m
+            n_reads = min(m // rb + 3, 40)
+            s = [('w', body), ('f',)] + [('r', rb)] * n_reads if rb * 40 >= m else [('w', body), ('f',)] + [('r', rb)] * 5 + [('r', m)] * 3
+            seqs.append(s)
+            # two large messages back to back, a flush between them, read with one buffer size
+            seqs.append([('w', body[: m // 2]), ('w', body[m // 2:]), ('f',), ('w', [1, 2, 3]), ('r', rb), ('r', m), ('r', m), ('r', 8), ('r', 8), ('r', 8)])
     sessions = [c17_session(s) for s in seqs]
     # pack many small sessions into one process each
     real, model = both(sessions, workers=12)
@@ -941,7 +953,14 @@ def c01_correspond(run, rng, tier, symbol_heavy=False, which='C01'):
             break
     # evaluator programs under forced collections, poisoning on: audit + comparison with the (GC-free) tree model
     psessions, progs = program_gc_sessions(rng, 150 if tier == 'quick' else 3000)
+    # modules replaced by a second load of the same name while their globals have been looked up: nothing may keep referring to
+    # the dropped definitions (judged by the oracle of the reload histories of C15)
+    rseq = [c15_reload_history(rng) for _ in range(60 if tier == 'quick' else 600)]
+    rscheds = [rng.choice(['every:7', 'every:40', 'lcg:%d:64' % rng.randrange(1 << 30)]) for _ in rseq]
+    psessions = psessions + [['new prelude', f'sched {k}', 'poison 1', 'eval ' + hexs(p), 'sched natural', 'audit'] for (p, _), k in zip(rseq, rscheds)]
     preal, pmodel = both(psessions)
+    n_prog = len(progs)
+    failures += reload_failures(rseq, [r[:4] for r in preal[n_prog:]], rscheds)
     diffs += compare(psessions, preal, pmodel)
     leaks = 0
     for p, r in zip(progs, preal):
@@ -1544,23 +1563,75 @@ def c15_viewer_history(rng):
             expected.append(('ok', str(table[n]) if n in table else 'unbound'))
     return '\n'.join(forms), expected
 
+def c15_reload_history(rng):
+    """modules loaded again under the same name (the new module REPLACES the old one: the old definitions are gone), globals of
+    those modules looked up from `default` before and after, with allocation in between so that reclaimed cells are reused;
+    returns (program, expected results per form)"""
+    names = ['w1', 'w2', 'w3']
+    mods = {}                     # module name -> dict of its definitions (no export lists: everything is public)
+    forms, expected = [], []
+    def lookup(n):
+        owners = [m for m, d in mods.items() if n in d]
+        if len(owners) == 1: return ('ok', str(mods[owners[0]][n]))
+        if not owners: return ('ok', 'unbound')
+        return ('ok', 'ambiguous')
+    for _ in range(rng.randint(6, 14)):
+        k = rng.random()
+        if k < 0.4:
+            m = rng.choice(['rm1', 'rm2'])
+            defs = {n: rng.randint(0, 99) for n in rng.sample(names, rng.randint(0, 2))}
+            text = ' '.join(f"(define (quote {n}) (list {v} {v}) (list))" for n, v in defs.items())
+            forms.append(f'(load-all "{text}" "{m}")')
+            mods[m] = {n: f'({v} {v})' for n, v in defs.items()}
+            expected.append(('ok', 'ok'))
+        elif k < 0.55:
+            forms.append(f'(length (map (lambda (x) (list x x)) (range {rng.choice([10, 40, 120])})))')
+            expected.append(None)
+        else:
+            n = rng.choice(names)
+            forms.append(f"(eval (trap {n} (if (= (. *trapped-signal* 'kind) 'ambiguous-name) 'ambiguous 'unbound)))")
+            expected.append(lookup(n))
+    return '\n'.join(forms), expected
+
+def reload_failures(rseq, reals, schedules):
+    out = []
+    for (p, expected), r, sched in zip(rseq, reals, schedules):
+        res, _ = parse_eval(r[-1] if r else '')
+        got = [(k, pr) for (k, pr, _) in (res or [])]
+        # (an ambiguous name typed at top level is already reported by the macro expansion of the form, before the trap exists)
+        got = [('ok', 'ambiguous') if k == 'sig' and 'ambiguous-name' in pr and 'conflicting-modules (rm1 rm2)' in pr else (k, pr) for (k, pr) in got]
+        bad = next((i for i, e in enumerate(expected) if e is not None and (i >= len(got) or got[i] != e)), None)
+        if bad is not None or len(got) != len(expected):
+            i = bad if bad is not None else min(len(got), len(expected))
+            out.append({'expression': p, 'schedule': sched, 'form_index': i,
+                        'form': p.split('\n')[i] if i < len(p.split('\n')) else None, 'expected': list(expected[i]) if i < len(expected) and expected[i] else None,
+                        'real': list(got[i]) if i < len(got) else None,
+                        'problem': 'after a module was loaded again under the same name a global of the replaced module is still found / shows a foreign value (a reference to reclaimed storage), or a global of the new one is not found'})
+    return out
+
 def c15_correspond(run, rng, tier):
     n = 600 if tier == 'quick' else 10000
     progs = [c15_history(rng) for _ in range(n)]
     mseq = [c15_module_sequence(rng) for _ in range(n // 2)]
     mprogs = [p for p, _ in mseq]
     vseq = [c15_viewer_history(rng) for _ in range(n // 3)]
+    rseq = [c15_reload_history(rng) for _ in range(n // 3)]
     sessions = eval_sessions(progs + mprogs + [p for p, _ in vseq])
+    # the reload histories also run with a collection at every 40th allocation and poisoned cells: a stale reference shows at once
+    sessions += [['new prelude', 'sched every:40', 'poison 1', 'eval ' + hexs(p)] for p, _ in rseq] + eval_sessions([p for p, _ in rseq])
     real, model = both(sessions)
     diffs = compare(sessions, real, model)
     failures = crash_failures(sessions, real)
-    dist = {'loads': 0, 'loads-stopped': 0, 'define-existing': 0, 'aborted-forms': 0, 'module-sequences': len(mseq), 'viewer-histories': len(vseq)}
+    dist = {'loads': 0, 'loads-stopped': 0, 'define-existing': 0, 'aborted-forms': 0, 'module-sequences': len(mseq), 'viewer-histories': len(vseq), 'reload-histories': 2 * len(rseq)}
     for (p, expected_out), r in zip(mseq, real[len(progs):]):
         res, tr = parse_eval(r[1] if len(r) > 1 else '')
         out = (tr or {}).get('out')
         if out != expected_out or not res or len(res) != 2 or res[1][:2] != ('ok', 'default'):
             failures.append({'expression': p, 'expected_output': expected_out, 'real_output': out, 'real': str(res)[:200],
                              'problem': 'define / undefine inside a loaded module: define overwrote, failed to signal, or undefine did not remove exactly that name'})
+    base = len(progs) + len(mprogs) + len(vseq)
+    failures += reload_failures(rseq + rseq, real[base:base + 2 * len(rseq)],
+                                ['a collection at every 40th allocation, freed cells poisoned'] * len(rseq) + ['natural'] * len(rseq))
     for (p, expected), r in zip(vseq, real[len(progs) + len(mprogs):]):
         res, _ = parse_eval(r[1] if len(r) > 1 else '')
         got = [(k, pr if k == 'ok' else ('already-defined' if 'already-defined' in pr else pr)) for (k, pr, _) in (res or [])]
@@ -1651,6 +1722,17 @@ def c11_strings(rng, tier):
             elif k < 0.67: s = s[:i] + s[i + 1:]
             else: s = s[:i] + s[i] + s[i:]
         out.append(s)
+    # the classification of every "special" scalar value — separators, format characters (U+FEFF, U+200B …), controls,
+    # combining marks, the neighbours of the White_Space set — in every position of a token: alone, inside, before and after an
+    # atom, inside a list, in a number, after %.  (The White_Space table itself is compared for ALL scalar values separately.)
+    import unicodedata
+    special = [c for c in map(chr, range(0x110000)) if not (0xD800 <= ord(c) <= 0xDFFF) and unicodedata.category(c) in ('Cf', 'Zs', 'Zl', 'Zp', 'Cc')]
+    special += [chr(x) for x in (0x84, 0x86, 0x9F, 0xA1, 0x167F, 0x1681, 0x1FFF, 0x200B, 0x200C, 0x2027, 0x202A, 0x202E, 0x205E, 0x2060, 0x2FFF, 0x3001, 0xFEFF, 0xFFFD, 0x10FFFF, 0x300, 0x301)]
+    if tier == 'quick':
+        keep = set(special[:0]) | {chr(x) for x in (0xFEFF, 0x200B, 0x2060, 0x85, 0xA0, 0x1680, 0x180E, 0x2028, 0x2029, 0x202F, 0x205F, 0x3000, 0xAD, 0x61C, 0x0, 0x7F, 0x1B)}
+        special = sorted(keep | set(rng.sample(special, 60)))
+    for c in sorted(set(special)):
+        out += [c, 'a' + c + 'b', ' ' + c + 'x', '(abc' + c + ')', 'p' + c + ' q', '12' + c + 'x', '%' + c, '"' + c + '"', '(' + c + ')', c + '\n' + c + ' y']
     return out, exhaustive
 
 def c11_check_one(text, line, col, resp):
